@@ -8,7 +8,7 @@ SPEC = {
     "rule": "secret sharing: case = (group of P256/P384/P521/ristretto255, t, n with 0 <= t < n <= 8 (16 thorough), secret in {0,1,r-1,random}, "
             "identifiers 1..n via Share or distinct arbitrary non-zero scalars via ShareWithID, coefficient stream, dealer reusing one identifier scalar object in place or a fresh one per call, caller overwriting the scalars passed in and the returned share / commitment objects after the calls, up to 3 subsets S in drawn order, up to 3 altered shares) drawn by rapid. "
             "bad share at the combiner: case = (1024/1025-bit pool key, l in 2..8, k in 1..l, share list of drawn size and order, drawn positions first / last / middle / one / several / all) whose shares are replaced by shares decoded with SignShare.UnmarshalBinary from hostile encodings (xi in {0, zero-padded 0, 1, N-1, N, N+1, p, q, p*r, N+p, 2N, 2^k, all ones, random, honest, honest+N, bit flip, empty}; Index / Players / Threshold altered singly or consistently over the list; byte-level mutations of honest encodings); CombineSignShares must return an error or a signature that crypto/rsa verifies, never panic; mutated KeyShare encodings go through KeyShare.UnmarshalBinary and Sign. "
-            "concurrent sub-check (ordinary and -race build): 8 goroutines behind a barrier deal with ONE SecretSharing value and by-value copies (Share, ShareWithID with distinct identifiers, Verify against one shared commitment, Recover), every dealt share compared with the reference polynomial; 8 goroutines sign 8 messages with ONE KeyShare per player (cached/uncached, blinded/unblinded) and 8 goroutines combine ONE shared slice of signature shares, every result compared with crypto/rsa.SignPKCS1v15. "
+            "concurrent sub-check (ordinary and -race build): 8 goroutines behind a barrier deal with ONE SecretSharing value and by-value copies (Share, ShareWithID with distinct identifiers, Verify against one shared commitment, Recover), every dealt share compared with the reference polynomial; 8 goroutines sign 8 messages with ONE KeyShare per player (cached/uncached, blinded/unblinded) while one more goroutine keeps marshalling the same key shares (their encoding must stay the dealt one, during and after), and 8 goroutines combine ONE shared slice of signature shares, every result compared with crypto/rsa.SignPKCS1v15. "
             "non-trivial = a share list with a hostile share handled without panic, a concurrent run, a recovery whose subset is not the prefix {1..t+1} in order, or has more than t+1 shares, or uses non-sequential identifiers, or is an unqualified set (|S| <= t) that was refused, "
             "or an altered (value/identifier) share that is off the polynomial and was rejected. "
             "threshold RSA: case = (pool key, l in 2..30, k in 1..l, cached/uncached Deal, blinded/unblinded (parallel or not) Sign, PKCS#1 v1.5 or PSS padder with hash and salt mode, message, player subset of size >= k in drawn order, blinding chosen per signature), followed by a second message signed with the same KeyShare objects (other padding/blinding, in one third of the cases after a MarshalBinary/UnmarshalBinary round trip of the participating shares); "
